@@ -245,6 +245,8 @@ class Run(object):
 
     def require_nonvacuous(self, *names):
         """Input-side counters that must be > 0; otherwise the space is vacuous (harness bug)."""
+        if sum(self.total.viol_count.values()) > 0:
+            return          # a verdict takes precedence: violations found, the run is reported as such (exit 1)
         for n in names:
             if self.total.counters.get(n, 0) <= 0:
                 raise HarnessError("vacuous exploration: counter %r is 0" % n)
